@@ -105,6 +105,8 @@ def evaluate(plan, ctx):
     test_dec, test_rew = [dec[i] for i in te], [rew[i] for i in te]
     nt = False
     ev = ["online" if plan["batch_size"] else "offline", "quick" if plan["is_quick"] else "full"]
+    if plan.get("scaler"):
+        ev.append("scaler=" + plan["scaler"])
     # per-arm statistics
     for scope, idx, got in (("total", list(range(n)), sim.arm_to_stats_total), ("train", tr, sim.arm_to_stats_train),
                             ("test", te, sim.arm_to_stats_test)):
